@@ -64,8 +64,8 @@ def gen_history(rng: random.Random, nops: typing.Optional[int] = None) -> list[d
         ops.append({'op': 'prune', 'project': ops[0]['project'], 'rel': 0, 'gen': rng.randint(0, 3)})
         nops = len(ops) + rng.randint(1, 3)
     while len(ops) < nops:
-        kind = rng.choices(['publish', 'train', 'restart', 'read', 'mount', 'train_unknown', 'prune'],
-                           [3, 6, 1.5, 1, 0.7, 0.3, 0.5])[0]
+        kind = rng.choices(['publish', 'train', 'restart', 'read', 'mount', 'train_unknown', 'prune', 'begin', 'commit'],
+                           [3, 6, 1.5, 1, 0.7, 0.3, 0.5, 1.6, 2.2])[0]
         if kind == 'publish':
             ops.append(publish())
         elif kind == 'train':
@@ -75,6 +75,11 @@ def gen_history(rng: random.Random, nops: typing.Optional[int] = None) -> list[d
         elif kind == 'read':
             ops.append({'op': 'read', 'project': rng.choice(PROJECTS[:nproj]), 'rel': rng.randint(0, 5),
                         'gen': rng.randint(0, 5)})
+        elif kind == 'begin':
+            ops.append({**train(), 'op': 'begin', 'slot': rng.randrange(3), 'other': rng.random() < 0.4, 'crash': None,
+                        'lose': None})
+        elif kind == 'commit':
+            ops.append({'op': 'commit', 'slot': rng.randrange(3), 'crash': crashspec()})
         elif kind == 'prune':
             ops.append({'op': 'prune', 'project': rng.choice(PROJECTS[:nproj]), 'rel': rng.randint(0, 5),
                         'gen': rng.randint(0, 5)})
@@ -183,12 +188,15 @@ class Run:
         self.pkgdir = os.path.join(self.box.base, 'pkgs')
         os.mkdir(self.pkgdir)
         self.nchild = 0
+        self.slots: dict[int, dict] = {}  # open training handles: slot -> {child, project, ver, states}
+        self.other: typing.Optional[boxmod.Child] = None  # a second live process (overlapping trainers)
         self.crash_site = 'main-line'
 
     # -- helpers -----------------------------------------------------------------------------
     def close(self):
-        if self.child:
-            self.child.close()
+        for child in (self.child, self.other):
+            if child:
+                child.close()
         self.box.destroy()
 
     def child_seed(self) -> int:
@@ -425,10 +433,58 @@ class Run:
         self.crash_site = 'main-line'
         if kind == 'restart':
             if self.child:
+                self.slots = {k: v for k, v in self.slots.items() if v['child'] is not self.child}
                 self.child.close()
                 self.child = None
             self.trace.append(op)
             self.stats['restarts'] += 1
+            return
+        if kind == 'begin':
+            self.trace.append(op)
+            rels = sorted(self.model.get(op['project'], {}), key=vkey)
+            if not rels:
+                return
+            ver = rels[op['rel'] % len(rels)]
+            if op.get('other'):
+                if self.other is None or not self.other.alive:
+                    self.other = boxmod.Child(self.box.root, OPTABLE, self.child_seed())
+                    self.stats['incarnations'] += 1
+                child = self.other
+            else:
+                child = self.incarnation()
+            res = child.call('train_begin', {'slot': op['slot'], 'project': op['project'], 'release': ver,
+                                             'states': op['states']})
+            if not res.ok:
+                raise base.Violation('verdict-mismatch', f'op{idx} begin training {op["project"]}/{ver}: {res.value}')
+            self.slots[op['slot']] = {'child': child, 'project': op['project'], 'ver': ver, 'states': list(op['states'])}
+            self.stats['op:begin'] += 1
+            self.verify(f'op{idx} begin training {op["project"]}/{ver} (staged only)')
+            return
+        if kind == 'commit':
+            key = sorted(self.slots)[op['slot'] % len(self.slots)] if self.slots else None
+            slot = self.slots.pop(key, None)
+            op = {**op, 'slot': key}
+            if slot is None or not slot['child'].alive or slot['ver'] not in self.model.get(slot['project'], {}):
+                self.trace.append({**op, 'crash': None})
+                return
+            before = copy.deepcopy(self.model)
+            after = copy.deepcopy(self.model)
+            gens = after[slot['project']][slot['ver']]['gens']
+            gens[max(gens, default=0) + 1] = slot['states']
+            where = (f'op{idx} commit the training of {slot["project"]}/{slot["ver"]} begun earlier '
+                     f'({"another" if slot["child"] is self.other else "same"} process, {len(self.slots)} other open)')
+            res = slot['child'].call('train_commit', {'slot': key})
+            self.trace.append({**op, 'crash': None})
+            self.stats['op:commit'] += 1
+            self.stats['overlapping-trainers'] += 1
+            if not res.ok:
+                raise base.Violation('verdict-mismatch', f'{where}: failed with {res.value}')
+            if res.value != max(gens):
+                raise base.Violation('generation-number', f'{where}: committed as generation {res.value}, expected '
+                                                          f'{max(gens)} (highest existing + 1 at commit time)')
+            del before
+            self.model = after
+            self.verify(where)
             return
         if kind == 'prune':
             # an administrator removes a whole generation directory (outside forml's API); later numbering must
